@@ -1072,7 +1072,16 @@ impl Callbacks for Cb {
                 }
                 DefKind::Const { .. } | DefKind::AssocConst { .. } => {
                     let t = tcx.type_of(did).instantiate_identity().skip_norm_wip();
-                    let scalar_ok = matches!(t.kind(), ty::Bool | ty::Char | ty::Int(_) | ty::Uint(_));
+                    let mut scalar_ok = matches!(t.kind(), ty::Bool | ty::Char | ty::Int(_) | ty::Uint(_));
+                    // a constant of a newtype over an integer (`BlockNumber(15)`) evaluates to a scalar as well
+                    if let ty::Adt(adt, args) = t.kind() {
+                        if adt.is_struct() && args.is_empty() && adt.all_fields().count() == 1 {
+                            if let Some(fd) = adt.all_fields().next() {
+                                let ft = tcx.type_of(fd.did).instantiate_identity().skip_norm_wip();
+                                scalar_ok = matches!(ft.kind(), ty::Int(_) | ty::Uint(_));
+                            }
+                        }
+                    }
                     if !scalar_ok {
                         continue;
                     }
